@@ -26,6 +26,11 @@ Definition show_out {A} (f : A -> string) (x : out biterr A) : string :=
 
 Definition as_i32 (v : N) : Z := if (v <? 2147483648)%N then Z.of_N v else (Z.of_N v - 4294967296)%Z.
 
+(* where the crate's reader stands after ExpGolombTooLarge: behind the first 1 bit (read_unary1 consumed the zeros and
+   the 1 before the count was judged); the history goes on from there *)
+Fixpoint drop_zeros_and_one (l : list bool) : list bool :=
+  match l with [] => [] | true :: r => r | false :: r => drop_zeros_and_one r end.
+
 Fixpoint run_bitops (ops : list bitop) (s : src) : list string :=
   match ops with
   | [] => []
@@ -37,12 +42,21 @@ Fixpoint run_bitops (ops : list bitop) (s : src) : list string :=
       | PANIC _ => ["PANIC"]
       | FUEL => ["FUEL"]
       end in
+    let step_eg (A : Type) (p : P A) (f : A -> string) :=
+      match p s with
+      | OK (a, s') => f a :: run_bitops rest s'
+      | ERR (ExpGolombTooLarge n) =>
+          show_biterr (ExpGolombTooLarge n) :: run_bitops rest (set_bits s (drop_zeros_and_one (bits s)))
+      | ERR e => [show_biterr e]
+      | PANIC _ => ["PANIC"]
+      | FUEL => ["FUEL"]
+      end in
     match op with
     | OpU w n => step _ (read_u w n "x") (fun v => "v" ++ show_N v)
     | OpTo k => step _ (read_u (8 * k) (8 * k) "x") (fun v => "v" ++ show_N v)
     | OpI32 n => step _ (read_u 32 n "x") (fun v => "v" ++ show_Z (as_i32 v))
-    | OpUe => step _ (read_ue "x") (fun v => "v" ++ show_N v)
-    | OpSe => step _ (read_se "x") (fun v => "v" ++ show_Z v)
+    | OpUe => step_eg _ (read_ue "x") (fun v => "v" ++ show_N v)
+    | OpSe => step_eg _ (read_se "x") (fun v => "v" ++ show_Z v)
     | OpB => step _ (read_bool "x") (fun b => if b then "T" else "F")
     | OpSkip n => step _ (skip n "x") (fun _ => "ok")
     | OpMore => step _ (has_more_rbsp_data "x") (fun b => if b then "T" else "F")
